@@ -108,7 +108,18 @@ def h1_units(ctx, rid='H1', scope=None):
     ctx.fn(gm)
     per_byte = list(gm.calls(r'char::methods::<impl char>::len_utf8$')) and len(gm.loops()) >= 2
     pushes = [t for _, t in gm.calls(r'Vec::<.*>::push$')]
-    if not per_byte or len(pushes) != 1:
+    # iterator form of the same thing: extend(repeat(char index).take(len_utf8))
+    ext = [t for _, t in gm.calls(r'Vec::<.*>::extend$|Extend<.*>>::extend$')]
+    ext_ok = False
+    if not pushes and len(ext) == 1 and gm.loops():
+        it = gm.expr(ext[0]['args'][1])
+        takes = [x for x in walk(it) if x[0] == 'call' and re.search(r'Iterator>?::take$', x[1]) and len(x[2]) == 2]
+        reps = [x for x in walk(it) if x[0] == 'call' and re.search(r'iter::(sources::repeat::)?repeat$', x[1]) and x[2]]
+        if takes and reps and 'len_utf8(' in render(takes[0][2][1]):
+            ext_ok = U.unit(gm, reps[0][2][0]) == {CHARS}
+    if ext_ok:
+        ctx.ok(rid, 'char_sizes: extend(repeat(character index).take(len_utf8)): one entry per byte, value = character index', 'units', site=gm.loc)
+    elif not per_byte or len(pushes) != 1:
         ctx.finding(rid, 'char-map/shape', 'generate_char_map no longer pushes one entry per byte of every character (len_utf8 loop with one push)', site=gm.loc)
     else:
         pv = U.unit(gm, gm.expr(pushes[0]['args'][-1]))
@@ -220,6 +231,8 @@ def h2_haystack(ctx, rid='H2'):
 def collision_table(ctx, b, pnames):
     """Abstractly evaluate `b` (a loop over existing items that returns false on collision) on one existing item
     [a, b) and a new span [s, e) for every ordering of the four end points. Returns {ordering: 'reject'|'accept'|'?'}."""
+    if not b.loops():
+        return collision_table_any(ctx, b, pnames)
     # comparisons in the body: binop over (item.start|item.end) x (param)
     cmps = {}
     for i in b.normal_blocks:
@@ -320,6 +333,125 @@ def collision_table(ctx, b, pnames):
             continue
         seen.add(sig)
         table[sig] = (run({'a': a, 'b': bb, 's': s, 'e': e}), a < e and s < bb)
+    return table
+
+
+def collision_table_any(ctx, b, pnames):
+    """the same decision written as `items.iter().any(|item| <predicate>)` (possibly inside a private helper): the closure
+    body is walked for every ordering of the four end points; `true` means the spans collide. The append must be on the
+    `false` side of that call."""
+    from ..facts import subst_args
+    anys = model.deep_calls(ctx, b, r'Iterator>?::(any|all)$')
+    if len(anys) != 1:
+        raise AnchorLost('%s: neither a loop over the existing items nor a single any(..) over them (%d found)' % (fn_key(b.path), len(anys)))
+    wb, t, args = anys[0]
+    negate = t['callee']['path'].endswith('::all')
+    clo = args[1]
+    while clo[0] in ('ref', 'deref'):
+        clo = clo[1]
+    if clo[0] != 'aggr' or not clo[1].startswith('closure:'):
+        raise AnchorLost('%s: the predicate of any(..) is not a closure literal' % fn_key(b.path))
+    P = ctx.facts.bodies.get(clo[1][8:])
+    if P is None or P.loops():
+        raise AnchorLost('%s: predicate closure not analysable' % fn_key(b.path))
+    env = [clo] + [('arg', j + 1, P.arg_names.get(j + 1)) for j in range(1, P.argc)]
+    # names of the two parameters as seen from the closure: in terms of the function that owns the any(..) call
+    owner_names = [wb.arg_names.get(i) for i in range(1, wb.argc + 1)]
+
+    def cls(opnd):
+        x = render(subst_args(P.expr(opnd), env))
+        if x.endswith('.start'):
+            return 'a'
+        if x.endswith('.end'):
+            return 'b'
+        for n, nm in enumerate(pnames):
+            if x == nm:
+                return 'se'[n]
+        # helper with renamed parameters: positional (the two usize parameters, in order)
+        us = [nm for i, nm in enumerate(owner_names, 1) if wb.locals.get(i) == 'usize']
+        if len(us) == 2 and x in us:
+            return 'se'[us.index(x)]
+        return None
+    OPS = {'Lt': lambda x, y: x < y, 'Le': lambda x, y: x <= y, 'Gt': lambda x, y: x > y, 'Ge': lambda x, y: x >= y, 'Eq': lambda x, y: x == y, 'Ne': lambda x, y: x != y}
+
+    def run(vals_env):
+        vals = {}
+        cur = 0
+        for _ in range(300):
+            bl = P.blocks[cur]
+            for st in bl['stmts']:
+                if st['k'] != 'assign' or st['lhs']['proj']:
+                    continue
+                l = st['lhs']['local']
+                if st['rv'] == 'binop' and st['op'] in CMP:
+                    cl, cr = cls(st['ops'][0]), cls(st['ops'][1])
+                    if cl and cr:
+                        vals[l] = int(OPS[st['op']](vals_env[cl], vals_env[cr]))
+                elif st['rv'] == 'binop' and st['op'] in ('BitOr', 'BitAnd', 'BitXor'):
+                    ps = [opplace(o) for o in st['ops']]
+                    if all(p_ and not p_['proj'] and p_['local'] in vals for p_ in ps):
+                        x, y = vals[ps[0]['local']], vals[ps[1]['local']]
+                        vals[l] = {'BitOr': x | y, 'BitAnd': x & y, 'BitXor': x ^ y}[st['op']]
+                elif st['rv'] == 'use':
+                    o = st['ops'][0]
+                    if 'const' in o and isinstance(o['const'].get('val'), (bool, int)):
+                        vals[l] = int(o['const']['val'])
+                    else:
+                        p_ = opplace(o)
+                        if p_ and not p_['proj'] and p_['local'] in vals:
+                            vals[l] = vals[p_['local']]
+                elif st['rv'] == 'unop' and st.get('op') == 'Not':
+                    p_ = opplace(st['ops'][0])
+                    if p_ and not p_['proj'] and p_['local'] in vals:
+                        vals[l] = 1 - vals[p_['local']]
+            t2 = bl['term']
+            if t2['k'] == 'switch':
+                p_ = opplace(t2['discr'])
+                if not p_ or p_['proj'] or p_['local'] not in vals:
+                    return '?'
+                nxt = t2['otherwise']
+                for val, tgt in t2['vals']:
+                    if val == vals[p_['local']]:
+                        nxt = tgt
+                cur = nxt
+            elif t2['k'] in ('goto', 'drop'):
+                cur = t2['target']
+            elif t2['k'] == 'call':
+                c2 = t2.get('callee') or {}
+                if not re.search(r'Deref>::deref$|::clone$|::borrow$', c2.get('path', '')):
+                    return '?'
+                cur = t2['target']
+            elif t2['k'] == 'return':
+                if 0 not in vals:
+                    return '?'
+                collides = bool(vals[0]) != negate
+                return 'reject' if collides else 'accept'
+            else:
+                return '?'
+        return '?'
+    table = {}
+    seen = set()
+    for a_, b_, s_, e_ in itertools.product(range(0, 8), repeat=4):
+        if not (a_ < b_ and s_ < e_):
+            continue
+        sig = tuple(sorted(set([a_, b_, s_, e_])).index(x) for x in (a_, b_, s_, e_))
+        if sig in seen:
+            continue
+        seen.add(sig)
+        table[sig] = (run({'a': a_, 'b': b_, 's': s_, 'e': e_}), a_ < e_ and s_ < b_)
+    # the append happens on the no-collision side
+    pushes = [(bid, tt) for bid, tt in b.calls(r'Vec::<.*>::push$')]
+    if not pushes and str(b.locals.get(0)) == 'bool':
+        # a predicate function: it must answer `true` for "no collision" (its callers append on `true`)
+        r_ = render(b.ret_expr())
+        if not (re.match(r'Not\(', r_) if not negate else not re.match(r'Not\(', r_)):
+            raise AnchorLost('%s: returns %s; expected the negation of the collision test (callers append when it is true)' % (fn_key(b.path), r_[:60]))
+    for bid, tt in pushes:
+        from ..facts import cond_str
+        conds = ' & '.join(cond_str(d_, v_) for (_x, d_, v_) in b.conditions(bid))
+        want = '!=[0]' if negate else '=[0]'
+        if not re.search(r'(any|all|%s)\(.*\)%s' % (re.escape(fn_key(wb.path).rsplit('::', 1)[-1]), re.escape(want)), conds):
+            raise AnchorLost('%s: the append is not on the no-collision side of the predicate (%s)' % (fn_key(b.path), conds[-120:]))
     return table
 
 
